@@ -803,6 +803,17 @@ def _return_temps(fn):
         i = 0
         while i + 1 < len(stmts):
             s1, s2 = stmts[i], stmts[i + 1]
+            # N15b  t = E; P = t   ->  P = E      (t read nowhere else)
+            if isinstance(s1, ast.Assign) and len(s1.targets) == 1 and isinstance(s1.targets[0], ast.Name) and \
+                    isinstance(s2, ast.Assign) and len(s2.targets) == 1 and isinstance(s2.value, ast.Name) and \
+                    s2.value.id == s1.targets[0].id and isinstance(s2.targets[0], (ast.Attribute, ast.Name)) and \
+                    not isinstance(s1.value, (ast.Name, ast.Constant)):
+                t = s1.targets[0].id
+                if loads(t) == 1 and stores(t) == 1 and t not in _params(fn):
+                    s2.value = s1.value
+                    del stmts[i]
+                    changed[0] = True
+                    continue
             if isinstance(s2, ast.Return) and s2.value is not None:
                 # N15
                 if isinstance(s1, ast.Assign) and len(s1.targets) == 1 and isinstance(s1.targets[0], ast.Name):
